@@ -75,6 +75,29 @@ def raw_inverse_paths(repo: Repo, rep, P: str, rule: str):
               and any(isinstance(t, ast.Subscript) and norm(t.value) == "self.controller_values" for t in n.ast.targets)]
     if not stores:
         rep.violation(f"{P}.{rule}", construct, "self.controller_values[name] = value", "set_raw no longer stores the value", f"{rel}:{fn.lineno}")
+    # every normal return of set_raw has stored a value: a path that returns without storing drops the raw value it was given
+    if stores:
+        store_ids = {n.id for n in stores}
+        paths = g.paths(g.entry, [g.exit], max_visits=1, limit=4000, labels_excluded={"exc", "reraise", "nomatch"})
+        if paths is None:
+            rep.inconclusive(f"{P}.{rule}", construct, "", "too many paths through set_raw", f"{rel}:{fn.lineno}")
+        else:
+            skipping = [p_ for p_ in paths if g.feasible(p_) and not any(nid in store_ids for nid, _ in p_)
+                        and not any(g.nodes[nid].kind == "stmt" and isinstance(g.nodes[nid].ast, ast.Raise) for nid, _ in p_)]
+            if not skipping:
+                rep.ok(f"{P}.{rule}", construct, f"{len(paths)} path(s) to a normal return", "each stores the decoded value")
+            else:
+                tests = [(norm(g.nodes[nid].ast), lab) for nid, lab in skipping[0] if g.nodes[nid].kind == "test"]
+                cond = "; ".join(f"{t} is {lab}" for t, lab in tests)[:200]
+                benign = any(("get_raw" in t or "to_raw_value" in t) and raw in t for t, _ in tests)
+                if benign:
+                    rep.inconclusive(f"{P}.{rule}", construct, cond, "set_raw can return without storing, under a test that compares raw values (not decided)",
+                                     f"{rel}:{fn.lineno}")
+                else:
+                    rep.violation(f"{P}.{rule}", construct, cond or "unconditional return",
+                                  f"set_raw can return without decoding and storing `{raw}` (path: {cond}): the value in the file is dropped and the "
+                                  "controller keeps what it had — e.g. a raw value that merely equals the currently held (decoded) value of a "
+                                  "negative-minimum controller is never decoded", f"{rel}:{fn.lineno}")
     # which local is from_raw_value?
     conv_names = set()
     for n in walk_no_nested(fn):
